@@ -60,7 +60,7 @@ CHECKS = {
    design="3/C15", note="Single-threaded jailed worker; table sizes through the read-only hook H2.",
    technique="stateful property-based testing (proptest) with enumerated EMFILE fault injection per request"),
  "C16": dict(level="exploration",
-   text="Directories of 0..300 (thorough 5000) entries with names of every length are listed under generated plans: up to 40 reads on up to 3 handles (or handle-less), resuming from 0, from the handle's last entry or from ANY previously returned entry, with buffers from exactly-the-next-entry up to 64 KiB, plain or plus. Oracle relative to the first sequential pass S: the reply to 'offset of S[k]' is S[k+1..k+m]; S equals the host listing with matching types; offsets non-zero and distinct; payload within size; plus entries carry the file's attributes and exactly the delivered ones hold a reference. Passthrough, pseudo-fs and Vfs-wrapped directories.",
+   text="Directories of 0..300 (thorough 2000) entries with names of every length are listed under generated plans: up to 40 reads on up to 3 handles (or handle-less), resuming from 0, from the handle's last entry or from ANY previously returned entry, with buffers from exactly-the-next-entry up to 64 KiB, plain or plus. Oracle relative to the first sequential pass S: the reply to 'offset of S[k]' is S[k+1..k+m]; S equals the host listing with matching types; offsets non-zero and distinct; payload within size; plus entries carry the file's attributes and exactly the delivered ones hold a reference. Passthrough, pseudo-fs and Vfs-wrapped directories.",
    design="3/C16", note="Known finding (listed): buffers with < 48 spare bytes can come back empty (dot entries). One host-kernel quirk after lseek to end-of-directory: an empty reply directly after an end-of-directory read on the same handle is retried once.",
    technique="property-based testing (proptest): generated resume plans against the sequence of a reference pass"),
  "C18": dict(level="exploration",
